@@ -177,6 +177,16 @@ static void closeSocket(TcpAsyncCtx *tcpCtx, unsigned int lineNr) {
 		tcpCtx->socketReady = false;
 		/* Clear input buffer. */
 		tcpCtx->inLen = 0;
+		/* A request that was sent only partially has to be sent from its beginning over the next connection. */
+		{
+			size_t i;
+			for (i = 0; i < KSI_AsyncHandleList_length(tcpCtx->reqQueue); i++) {
+				KSI_AsyncHandle *req = NULL;
+				if (KSI_AsyncHandleList_elementAt(tcpCtx->reqQueue, i, &req) == KSI_OK && req != NULL) {
+					req->sentCount = 0;
+				}
+			}
+		}
 	}
 }
 
